@@ -1019,6 +1019,8 @@ struct TcpWorld {
     int sb_t = 0, sb_r = 0;
     int client_generations = 0;
     bool auto_reconnect = false;
+    bool use_sink = false;                  //! this case binds / unbinds a receiver (ByteStream::bind) on the TcpClient
+    bool sink_bound = false;                //! the harness's last word: bind() (true) or unbind() (false)
     int arrangement = 0;
 };
 TcpWorld *tw = nullptr;
@@ -1065,6 +1067,55 @@ void bind_server_end(TEnd &t, const TcpServer::ConnToken &tk) {
     TEnd *tp = &t;
     t.do_teardown = [srv, tk, tp](bool) { tp->torn = true; tp->running = false; bool ok = srv->disconnect(tk); if (!ok) vh::counter("disconnect_returned_false"); };
     t.do_shutdown_wr = [srv, tk] { return srv->shutdown(tk, SHUT_WR); };
+}
+
+//! A receiver bound with TcpClient::bind(): from bind() to unbind() it gets the inbound bytes instead of the receive callback (it takes
+//! everything, so it counts as consuming all it is given); after unbind() it must never be handed anything again, on this connection or the next
+struct ClientSink : public ByteStream {
+    void setReceiveCallback(const ReceiveCallback &, size_t) override { }
+    void setSendCompleteCallback(const SendCompleteCallback &) override { }
+    void bind(ByteStream *) override { }
+    void unbind() override { }
+    Buffer *getReceiveBuffer() override { return nullptr; }
+    bool send(const void *p, size_t n) override {
+        if (g->ending) return true;
+        vh::counter("receiver_bound_forwards");
+        if (!tw->sink_bound) {
+            vh::viol("bind/bytes-forwarded-to-unbound-receiver", vh::fmt("%zu bytes handed to a receiver after TcpClient::unbind() (connection generation %d)", n, tw->client_generations));
+            return true;
+        }
+        Link *l = tw->client_link;
+        if (!l) { vh::viol("callback/unknown-connection", "bound receiver of the TcpClient given bytes without a connection"); return true; }
+        TEnd &t = tw->arrangement == 3 ? l->t2 : l->t;
+        if (l->broken) return true;
+        long bad = fdiff(t.in->id, t.consumed, (const uint8_t *)p, n);
+        uint64_t hi = t.consumed + n;
+        if (bad >= 0) {
+            vh::viol("bind/content-mismatch", vh::fmt("%s: bound receiver should get stream offsets [%llu,%llu) but differs at offset %llu", t.nm,
+                     (unsigned long long)t.consumed, (unsigned long long)hi, (unsigned long long)(t.consumed + bad)));
+            l->broken = true;
+        } else if (hi > t.in->accepted) {
+            vh::viol("bind/more-than-written", vh::fmt("%s: bound receiver given up to offset %llu, the peer wrote only %llu bytes", t.nm,
+                     (unsigned long long)hi, (unsigned long long)t.in->accepted));
+            l->broken = true;
+        } else if (hi < t.presented_hi) {
+            vh::viol("bind/presented-bytes-vanished", vh::fmt("%s: previously presented up to %llu, bound receiver given only up to %llu", t.nm,
+                     (unsigned long long)t.presented_hi, (unsigned long long)hi));
+            l->broken = true;
+        }
+        if (l->broken) return true;
+        vh::counter("bytes_forwarded_to_bound_receiver", n);
+        if (hi > t.presented_hi) vh::counter("bytes_presented_new", hi - t.presented_hi);
+        t.presented_hi = hi; t.in->verified = hi; t.consumed = hi; t.prefix_likely = false; t.snap_ok = false;
+        return true;
+    }
+};
+ClientSink g_client_sink;
+
+void client_sink_toggle(const char *where, unsigned pc) {
+    if (!tw->use_sink || !tw->client || !g->r->chance(pc, 100)) return;
+    if (tw->sink_bound) { tw->client->unbind(); tw->sink_bound = false; vh::counter(std::string("receiver_unbound_") + where); g->log(vh::fmt("[C.unbind@%s]", where)); }
+    else { tw->client->bind(&g_client_sink); tw->sink_bound = true; vh::counter(std::string("receiver_bound_") + where); g->log(vh::fmt("[C.bind@%s]", where)); }
 }
 
 void client_rx_cb(Buffer &b) {
@@ -1198,6 +1249,7 @@ void client_on_connected() {
     if (verify_sock_fd(fd, tw->unix_family)) { t.rfd = t.wfd = fd; t.fd_ok = true; if (!tw->unix_family) tcp_tune(fd, false); } else vh::counter("fd_not_identified");
     g->log(vh::fmt("[C.connected#%d]", tw->client_generations));
     if (tw->client_generations > 1) vh::counter("tcp_client_reconnected");
+    client_sink_toggle("while-connected", 30);
 }
 
 //! Length-prefixed framing as users do it: the receive callback is registered again on the live connection with another threshold
@@ -1371,6 +1423,7 @@ void run_tcp_case(vh::Rng &r) {
                 on_close(t, "disconnected");
                 if (tw->arrangement != 3) tw->client_link = nullptr;
                 if (tw->auto_reconnect) tw->client_fd_candidate = g->in_pass ? g->prepass_free_fd : -1;
+                client_sink_toggle("while-disconnected", 60);
             });
             T.client->setReceiveCallback(client_rx_cb, T.threshold);
             T.client->setSendCompleteCallback([] {
@@ -1384,6 +1437,8 @@ void run_tcp_case(vh::Rng &r) {
                 l->t2.nm = "C"; l->t2.out = &l->r2t; l->t2.in = &l->t2r; l->t2.threshold = T.threshold; l->t2.cons = T.cons;
                 T.client_link = l; T.pending_server_link = l;
             }
+            T.use_sink = T.arrangement == 1 && r.chance(1, 3); T.sink_bound = false;
+            client_sink_toggle("before-start", 50); client_sink_toggle("before-start", 40);
             T.client_fd_candidate = lowest_free_fd();
             if (!T.client->start()) { ok = false; vh::counter("setup_failed"); }
             else {
